@@ -4,6 +4,8 @@ import json, sys
 ENV = "GOFLAGS=-mod=mod GOPROXY=off GOSUMDB=off GOTOOLCHAIN=local GOWORK=off"
 checks = json.load(open('/verif/scripts/checks.json'))
 na = json.load(open('/verif/scripts/not_applicable.json'))
+# rules a check takes over from the check that owns them (exported with `csverify shared`; DESIGN.md §0.11)
+shared = json.load(open('/verif/scripts/shared_rules.json'))
 m = {
  "version": 1,
  "setup_cmd": f"cd /verif/checker && {ENV} go build -o /verif/bin/csverify ./cmd/csverify",
@@ -17,6 +19,9 @@ m = {
  "notes": "All checks are static (no code of /repo is executed by a deciding step). Findings repaired in /repo are listed as 'fixed:' lines in /verif/known_findings.jsonl.",
 }
 for c in checks:
+    if c["id"] in shared:
+        c = dict(c)
+        c["text"] += " Shared rules: necessary conditions of this property that another check owns are run by this check as well, against the same working tree (construct prefixed with the owning property; DESIGN.md 0.11): " + "; ".join(shared[c["id"]]) + "."
     m["checks"].append({
         "property_id": c["id"],
         "quick_cmd": f"/verif/bin/csverify check {c['id']} --tier quick",
